@@ -43,20 +43,18 @@ SPEC = {
                     'commit reports have at most 256 messages for the provability theorem (the verifier\'s own limit)'],
     'level_text': 'Proof: 26 closed Coq theorems. 12 property theorems. C08_multiproof is proved in full: for ALL trees of <= 256 leaves, all non-empty ascending index '
                   'sets and any commutative internal hash, verify (selected leaves) (prove tree idxs) = root (induction over layers, FIFO-queue invariant), with '
-                  'C08_multiproof_needs_commutativity. The report builder: full specification of one Add (membership, eligibility, token-data alignment, limits, executed '
+                  'C08_multiproof_needs_commutativity. Report builder: full specification of one Add (membership, eligibility, token-data alignment, limits, executed '
                   'bookkeeping: C08_add, C08_mark), no report from commit data that does not reproduce its root (C08_bad_root_no_report), every appended report '
-                  're-verifies contract-style from its flag bits to the committed root (C08_provable), budget invariant and outcome-level limits for selectReport '
-                  '(C08_limits_invariant, C08_outcome). Nonce order: proved outside the recorded class (C08_nonce_order_except_known), refuted inside it '
-                  '(C08_nonce_order_refuted: the size / gas fallback drops a sequenced message after its nonce was counted - known finding F14, asserted by the '
-                  "repository's own tests), refuted for the pre-repair check order (F14a, repaired in /repo). System level (ExecSys): C08_report_sound_cycle - every "
-                  'chain report of a Filter round verifies to the root of a commit report that f_dest+1 distinct oracles reported identically in round 1 under the key of '
-                  'its own source chain (C08_provable composed with the C07 cycle theorem). Judge soundness (14 C08_judge_*): for each of the 4 sinks (the nonce clause '
-                  "as a second pass) the executable property accepts the model's output and implies the Prop-level clause; Panic / Spin never pass. Correspondence, every "
-                  'run: the real report.NewBuilder Add + Build, real merklemulti NewTree / Prove / VerifyComputeRoot incl. mutated proofs, real selectReport, and '
-                  'execute.Plugin.Outcome in the Filter state under size / gas pressure and tampered commit data; every produced report is re-verified in Go with '
-                  'VerifyComputeRoot and again in Coq; the cycle theorem is exercised on four long-lived plugins by the ExecSys part of C07. Translation tie (3 theorems, '
-                  'C08_gen.v): BoolsToBitFlags / BitFlagsToBools and their round trip. Partial: root = mroot(leaves), the number of chain reports and Err answers are '
-                  'compared with the model only.',
+                  're-verifies contract-style from its flag bits to the committed root (C08_provable), budget invariant and outcome-level limits (C08_limits_invariant, '
+                  'C08_outcome). Nonce order: proved outside the recorded class (C08_nonce_order_except_known), refuted inside it (known finding F14: the size / gas '
+                  'fallback drops a sequenced message after its nonce was counted), refuted for the pre-repair check order (F14a, repaired in /repo). System level '
+                  '(ExecSys): C08_report_sound_cycle - every chain report of a Filter round verifies to the root of a commit report that f_dest+1 distinct oracles '
+                  'reported identically in round 1 under its own source chain. Judge soundness (14 C08_judge_*): for each of the 4 sinks (nonce clause as a second pass) '
+                  "the executable property accepts the model's output and implies the Prop-level clause; Panic / Spin never pass. Correspondence, every run: the real "
+                  'report.NewBuilder Add + Build, real merklemulti NewTree / Prove / VerifyComputeRoot incl. mutated proofs, real selectReport, execute.Plugin.Outcome in '
+                  'the Filter state under size / gas pressure and tampered commit data; every produced report is re-verified in Go and again in Coq; the cycle theorem is '
+                  'exercised on four long-lived plugins by the ExecSys part of C07. Translation tie (3 theorems, C08_gen.v): BoolsToBitFlags / BitFlagsToBools. Partial: '
+                  'root = mroot(leaves), the number of chain reports and Err answers are compared with the model only.',
     'level_note': 'Trusted: Coq kernel, hand-written model and theorem statements (merklemulti is external code, transliterated from its source into Model/Merkle.v, not '
                   'verified in place), differential harness, leaf translator. Specific: keccak HashInternal is an oracle - the model uses the table of real (a,b) -> '
                   'H(a,b) pairs logged by the harness, the multiproof theorem assumes only commutativity; MessageHasher.Hash, ExecutePluginCodec size and the gas '
